@@ -8,6 +8,9 @@ import SqlframeModel.Lemmas.C01Steps
 import SqlframeModel.Lemmas.C01Dropna
 import SqlframeModel.Lemmas.Sorted
 import SqlframeModel.Lemmas.C01ExprKey
+import SqlframeModel.Lemmas.C01Bodies
+import SqlframeModel.Lemmas.C01Memo
+import SqlframeModel.Lemmas.C01Narrow
 namespace Sqlframe
 open Gen
 
@@ -481,6 +484,130 @@ example :
     exprKeyNeedsWrap viewBare [("k", .col "k"), ("v", .col "v")] [.bin .add (.col "v") (.lit (.int 1))] = false ∧
     exprKeyNeedsWrap viewAliased [("w", .col "v")] [.neg (.col "w")] = true ∧
     exprKeyNeedsWrap viewBare [("v", .neg (.col "v"))] [.col "v"] = false := by decide
+
+/-! ### the composition of the method bodies is the one the source has now (Gen.C01Bodies)
+
+Which further DataFrame methods a body runs, and whether it enters them through the `@operation` wrapper (which applies the
+wrap rule again) or around it (`.__wrapped__`), or writes its clause into `self.expression` itself, decides in which SELECT
+block the clause lands.  These decisions are regenerated; `DF.applyGen` composes the bodies from them. -/
+
+/-- the hand-written composition in `DF.apply` is the regenerated one, for every DataFrame state and every step -/
+theorem C01_bodies_agree (d : DF) (s : Step) : d.applyGen s = d.apply s := applyGen_eq d s
+
+/-- **C01 for the regenerated composition**: the chain theorem holds for the pipeline built with the inner calls exactly as
+    dataframe.py makes them now -/
+theorem C01_partial_gen (T : Table) (steps : List Step) (hT : T.WF) (hs : StepsWF T steps)
+    (hsc : noAdjacentOrderBy steps = true) (hin : steps.all Step.inTheorem = true) :
+    (steps.foldl DF.applyGen (DF.init T)).eval = specRun T steps := by
+  have e : DF.applyGen = DF.apply := by funext d s; exact applyGen_eq d s
+  rw [e]
+  exact C01_partial T steps hT hs hsc hin
+
+/-! ### a chain's answer does not depend on the chains built before it
+
+`_get_outer_select_columns` is recomputed on every call and `withColumns` writes its items into the list it was handed
+(both regenerated).  `runHistory memo inpl` is the process semantics with the helper memoised (`memo`) and the write in place
+(`inpl`) as parameters. -/
+
+/-- remembering the column list is sound exactly as long as nobody writes into the remembered list: for either flag
+    off, every call in every history — on whatever DataFrames the program holds — returns what the call returns alone -/
+theorem C01_memo_sound (memo inpl : Bool) (hf : memo = false ∨ inpl = false) (calls : List (DF × Step)) :
+    runHistory memo inpl [] calls = calls.map (fun c => c.1.apply c.2) :=
+  runHistory_sound memo inpl hf calls [] memoOK_nil
+
+/-- the source as it is now: the helper is not memoised, or the list it returns is not written into -/
+theorem C01_gen_columns_not_shared : outerColsMemoised = false ∨ withColumnsMutatesOuterCols = false := by decide
+
+/-- **history independence**, for the regenerated flags -/
+theorem C01_history_independent (calls : List (DF × Step)) :
+    runHistory outerColsMemoised withColumnsMutatesOuterCols [] calls = calls.map (fun c => c.1.apply c.2) :=
+  C01_memo_sound _ _ C01_gen_columns_not_shared calls
+
+/-- **C01 for several chains in one interpreter**: whatever chains over a source ran before, each in-scope chain returns
+    PySpark's sequential result for that chain -/
+theorem C01_scenario (T : Table) (chains : List (List Step)) (hT : T.WF)
+    (hc : ∀ c ∈ chains, StepsWF T c ∧ noAdjacentOrderBy c = true ∧ c.all Step.inTheorem = true) :
+    runScenarioGen T chains = chains.map (specRun T) := by
+  unfold runScenarioGen runScenario
+  rw [runScenarioFrom_sound _ _ C01_gen_columns_not_shared T chains [] memoOK_nil]
+  apply List.map_congr_left
+  intro c hmem
+  obtain ⟨h1, h2, h3⟩ := hc c hmem
+  exact C01_partial T c hT h1 h2 h3
+
+/-- both flags on is unsound: after `df.withColumn('d', x + 1)`, the chain `df.drop('y')` over the *same* DataFrame returns a
+    column it never asked for (with either flag off it returns `x` alone) -/
+theorem C01_memo_written_unsound :
+    let T : Table := { cols := ["x", "y"], rows := [[.int 1, .int 2]] }
+    let c1 : List Step := [.withColumn "d" (.bin .add (.col "x") (.lit (.int 1)))]
+    let c2 : List Step := [.drop ["y"]]
+    runScenario true true T [c1, c2] = [{ cols := ["x", "y", "d"], rows := [[.int 1, .int 2, .int 2]] }, { cols := ["x", "d"], rows := [[.int 1, .int 2]] }]
+    ∧ runScenario true false T [c1, c2] = [specRun T c1, specRun T c2]
+    ∧ runScenario false true T [c1, c2] = [specRun T c1, specRun T c2]
+    ∧ specRun T c2 = { cols := ["x"], rows := [[.int 1]] } := by decide
+
+/-- non-vacuity of `C01_scenario`: two chains sharing their first step, the second built after the first -/
+example :
+    let T := exTable
+    let chains : List (List Step) := [[.wher (.not (.isNull (.col "x"))), .withColumn "z" (.col "x")], [.wher (.not (.isNull (.col "x"))), .fillna (.int 0) ["y"]]]
+    T.WF ∧ (∀ c ∈ chains, StepsWF T c ∧ noAdjacentOrderBy c = true ∧ c.all Step.inTheorem = true) := by decide
+
+/-! ### why `drop` may not be folded into the open block
+
+`drop` is a SELECT-class step that runs `select` through its wrapper (regenerated: `Gen.tag_drop`, `Gen.inner_drop`), so after a
+DISTINCT, ORDER BY or LIMIT it projects from a new block.  Removing the items from the open block's own select list instead
+is equivalent exactly under the two side conditions below — SQL de-duplicates and sorts the *projected* rows. -/
+
+/-- for every block (any WHERE, select list, ORDER BY, LIMIT) that does not de-duplicate and sorts by none of the dropped
+    names: narrowing its select list in place is PySpark's `drop` applied to the block's result -/
+theorem C01_fold_narrow (b : Block) (T0 : Table) (ns : List Name) (hnd : (b.sel.map (·.1)).Nodup)
+    (hd : b.distinct = false) (hk : ∀ k ∈ b.order, k.name ∉ ns) :
+    evalBlock (b.narrow ns) T0 = specStep (evalBlock b T0) (.drop ns) :=
+  evalBlock_narrow b T0 ns hnd hd hk
+
+/-- non-vacuity: a block with WHERE, a computed item, ORDER BY and LIMIT meets the hypotheses -/
+example :
+    let b : Block := { wher := [.bin .gt (.col "a") (.lit (.int 0))], sel := [("a", .col "a"), ("k", .neg (.col "b")), ("c", .col "c")],
+                       order := [{ name := "k" }], limit := some 2 }
+    (b.sel.map (·.1)).Nodup ∧ b.distinct = false ∧ (∀ k ∈ b.order, k.name ∉ ["a"]) := by decide
+
+/-- the first side condition is needed: with DISTINCT, rows that differ only in the dropped column collapse -/
+theorem C01_fold_narrow_distinct_cex :
+    let T0 : Table := { cols := ["a", "b"], rows := [[.int 1, .int 10], [.int 2, .int 10]] }
+    let b : Block := { sel := identSel ["a", "b"], distinct := true, limit := some 5 }
+    (evalBlock (b.narrow ["a"]) T0).rows = [[.int 10]] ∧ (specStep (evalBlock b T0) (.drop ["a"])).rows = [[.int 10], [.int 10]] := by decide
+
+/-- so is the second: a dropped sort key is no longer there to sort by -/
+theorem C01_fold_narrow_sortkey_cex :
+    let T0 : Table := { cols := ["a", "b"], rows := [[.int 2, .int 10], [.int 1, .int 20]] }
+    let b : Block := { sel := identSel ["a", "b"], order := [{ name := "a" }] }
+    (evalBlock (b.narrow ["a"]) T0).rows = [[.int 10], [.int 20]] ∧ (specStep (evalBlock b T0) (.drop ["a"])).rows = [[.int 20], [.int 10]] := by decide
+
+/-! ### engine scope: a statement the multi-threaded engine answers wrongly (third party)
+
+The witness of the open known finding `H_engineNestedUnionOverSort`.  sqlframe's statement for it is right: the model (whose
+block semantics is `Core/Sql.lean`) and the specification agree, and DuckDB itself returns the specification's rows when run
+single-threaded; the check accepts the finding only under that condition. -/
+
+def engineWitnessTable : Table := { cols := ["x", "y"], rows := [[.int (-1), .null], [.int 0, .int (-1)], [.int 1, .int (-1)]] }
+def engineWitnessSteps : List Step :=
+  [ .orderBy [{ name := "x", desc := true, nullsFirst := true }, { name := "y", desc := true, nullsFirst := false }],
+    .unpivot [] ["x", "y"] "var" "val",
+    .select [("w", .lit (.int 0)), ("p", .bin .add (.bin .mul (.lit (.int (-1))) (.lit (.int 2))) (.lit (.int (-1))))],
+    .unpivot [] ["w", "p"] "var" "val" ]
+
+/-- the witness is in the scope of `C01_partial`, is flagged by the driver, and means twelve rows (six per value column) -/
+theorem C01_engine_witness :
+    engineWitnessTable.WF ∧ StepsWF engineWitnessTable engineWitnessSteps ∧ noAdjacentOrderBy engineWitnessSteps = true ∧
+    violated engineWitnessSteps = ["H_engineNestedUnionOverSort"] ∧
+    (specRun engineWitnessTable engineWitnessSteps).rows.length = 12 ∧
+    ((DF.init engineWitnessTable).run engineWitnessSteps).eval = specRun engineWitnessTable engineWitnessSteps := by decide
+
+/-- the scope predicate is about the order of three steps, not about their neighbours: programs without the full pattern are
+    not flagged -/
+example : nestedUnionOverSort [.unpivot [] ["x", "y"] "var" "val", .orderBy [{ name := "val" }], .unpivot [] ["var", "val"] "a" "b"] = false
+        ∧ nestedUnionOverSort [.orderBy [{ name := "x" }], .unpivot [] ["x"] "var" "val", .unpivot [] ["var", "val"] "a" "b"] = false
+        ∧ nestedUnionOverSort exSteps = false := by decide
 
 /-! ### the full statement, for the record
 
